@@ -298,7 +298,7 @@ fn mutate(v: &mut J, rng: &mut Rng, budget: &mut u32) {
             1 => json!(true),
             2 => json!(-7),
             3 => json!(1e40),
-            4 => json!("oops"),
+            4 => json!(*rng.pick(&["oops", "oops", "sm\nall", "x\u{0}y", "tab\there"])),
             5 => json!([]),
             _ => json!({"unexpected": 1}),
         };
@@ -321,7 +321,7 @@ fn mutate(v: &mut J, rng: &mut Rng, budget: &mut u32) {
                 }
             }
             if rng.chance(1, 8) && *budget > 0 {
-                m.insert(rng.pick(&["extra", "Id", "displayname", "Type"]).to_string(), json!(1));
+                m.insert(rng.pick(&["extra", "Id", "displayname", "Type", "na\tme", "x\u{0}y", "del\u{7f}", "sm\nall", "caf\u{e9}\u{1b}[0m"]).to_string(), json!(1));
                 *budget -= 1;
             }
         }
@@ -337,6 +337,9 @@ fn cut_script(body: &[u8], rng: &mut Rng, c: &mut dyn FnMut(&str)) -> Vec<Step> 
         script.push(Step::Chunk(vec![]));
         c("fault_empty_chunk");
     }
+    // a body of megabytes is cut coarsely (at most a few hundred chunks): what it is there for is
+    // the size limits, and a million two-byte chunks would only burn the step budget
+    let floor = if body.len() > 64 * 1024 { body.len() / 256 } else { 0 };
     while pos < body.len() {
         let rem = body.len() - pos;
         let n = match style {
@@ -346,6 +349,7 @@ fn cut_script(body: &[u8], rng: &mut Rng, c: &mut dyn FnMut(&str)) -> Vec<Step> 
             3 => 1 + rng.below(rem.min(64)),
             _ => 1 + rng.below(rem),
         };
+        let n = n.max(floor.min(rem));
         script.push(Step::Chunk(body[pos..pos + n].to_vec()));
         pos += n;
         if pos < body.len() {
@@ -385,7 +389,7 @@ pub fn generate(seed: u64, index: u64, thorough: bool) -> Scenario {
         let err = *rng.pick(&[ErrTy::JsonError, ErrTy::JsonError, ErrTy::Tok]);
         if framework == Framework::ActixQuery {
             // query strings: repeated keys, percent-encoding, malformed escapes, empty
-            let parts = ["q=hello", "q=a%20b", "limit=10", "page=2", "q=%E9", "q=%zz", "limit=", "=x", "unknown=1", "q=1&q=2", "q=h%C3%A9llo", "limit=10&limit=20", "a[b]=c", "+q=+x+", "?q=doggo", "?", "q=a?b", "&", "q", "q==", "%71=y", "q=x;limit=1", "page=%32"];
+            let parts = ["q=hello", "q=a%20b", "limit=10", "page=2", "q=%E9", "q=%zz", "limit=", "=x", "unknown=1", "q=1&q=2", "q=h%C3%A9llo", "limit=10&limit=20", "a[b]=c", "+q=+x+", "?q=doggo", "?", "q=a?b", "&", "q", "q==", "%71=y", "q=x;limit=1", "page=%32", "q=+doggo", "limit=+5", "page=+2+", "q=%2Bplus", "q=a+b=+c"];
             let k = rng.below(4);
             let mut q: Vec<&str> = vec![];
             for _ in 0..k {
